@@ -247,7 +247,7 @@ Proof.
       assert (i <> k) by (intros ->; rewrite Hi in Hk; discriminate).
       apply hb_trans with k; [apply hb_po with Ctl (EAcc c) EFork; auto; lia|].
       apply hb_fork with (EAcc f); auto.
-    + rewrite (joined_mono tr i j) in Jj; auto; try lia. discriminate.
+    + rewrite (joined_mono tr i j) in Jj; auto; try lia; try discriminate.
 Qed.
 
 (* ... Flt access first *)
@@ -264,7 +264,7 @@ Proof.
   - apply common_mutex_inv in P. destruct P as (m & A & B).
     eapply lock_hb with (m := m) (t1 := Flt) (t2 := Ctl); eauto; discriminate.
   - destruct (o_phase c) eqn:Ph; simpl in P; try discriminate; simpl in Phj.
-    + rewrite (forked_mono tr i j) in Phj; auto; try lia. discriminate.
+    + rewrite (forked_mono tr i j) in Phj; auto; try lia; try discriminate.
     + destruct (join_between tbl tr i j) as (k & Hik & Hkj & Hk); auto; try lia.
       assert (i <> k) by (intros ->; rewrite Hi in Hk; discriminate).
       apply hb_trans with k; [apply hb_join with (EAcc f); auto; lia|].
